@@ -30,6 +30,7 @@ let parse_op tok = match String.split_on_char ':' tok with
   | ["C"; a; b; c] -> RecvCancel (parse_piece a b c)
   | ["D"; "0"] -> Decide false
   | ["D"; "1"] -> Decide true
+  | ["N"] -> Decide true          (* the peer's NOT_INTERESTED: the choke_queue chokes it at once *)
   | ["W"; "inf"] -> WriteReady (n_of_string "1099511627776")
   | ["W"; k] -> WriteReady (n_of_string k)
   | ["K"] -> KeepaliveTick
